@@ -2,6 +2,7 @@ import vlib
 
 class P(vlib.Prop):
     id = "C20"
+    watch = ("pkg/apk/apk/transport.go",)
     rule = ("scripted stage: hand-picked corners, then every single-fault and a grid of double-fault scripts over a 13-byte body "
             "x 3 server kinds x 3 buffer sizes, then random scripts (body reads with chosen chunk sizes, failures, eager EOF; connection "
             "outcomes serve/dial-error/503) run against the real rangeRetryReader through a scripted http.RoundTripper; "
